@@ -1,7 +1,13 @@
 package sim
 
 func init() {
-	generators["C06"] = func(p *Plan, r *RNG) { withRace(p, r, 5, func() { genC06(p, r) }) }
+	generators["C06"] = func(p *Plan, r *RNG) {
+		if r.Chance(1, 12) {
+			genC06Reconnect(p, r)
+			return
+		}
+		withRace(p, r, 5, func() { genC06(p, r) })
+	}
 	generators["C07"] = func(p *Plan, r *RNG) { withRace(p, r, 5, func() { genC07(p, r) }) }
 }
 
@@ -149,4 +155,43 @@ func genC07(p *Plan, r *RNG) {
 	}
 	p.QuietNS = 10 * sec
 	addFaults(p, r, faultLevel(r))
+}
+
+// genC06Reconnect: a stream client loses its control connection and connects again at once from
+// the same address and port (a client that restarts, a NAT that keeps its mapping) and
+// allocates - while the server is still busy taking down what belonged to the old connection.
+// The allocation made over the new connection is a new one: it lives its own lifetime.
+func genC06Reconnect(p *Plan, r *RNG) {
+	baseSrvConfig(p, r)
+	p.Flavor = "tcp-reconnect"
+	p.Cfg.Listener = "tcp"
+	p.Cfg.AllocLifeS = r.PickInt([]int{0, 600})
+	addClients(p, r, 2)
+	addPeers(p, r, 1)
+	c, c2 := p.Clients[0].ID, p.Clients[1].ID
+	add := func(o Op) int {
+		p.Ops = append(p.Ops, o)
+		return len(p.Ops)
+	}
+	add(Op{Actor: c, Kind: "allocate", At: gap(int64(r.Range(10, 200)) * ms), A: OpArgs{Lifetime: -1}})
+	add(Op{Actor: c2, Kind: "allocate", At: gap(int64(r.Range(10, 200)) * ms), A: OpArgs{Lifetime: -1}})
+	add(Op{Actor: c, Kind: "createperm", At: gap(200 * ms), A: OpArgs{Peer: p.Peers[0].Addr}})
+	if r.Chance(1, 2) {
+		// the old connection's allocation is already gone when the connection ends (released by
+		// the client): what the old connection's clean-up finds on that 5-tuple is not its own
+		add(Op{Actor: c, Kind: "refresh", At: gap(int64(r.Range(100, 600)) * ms), A: OpArgs{Lifetime: 0}})
+	}
+	x := add(Op{Actor: c, Kind: "tcp_reconnect", At: gap(int64(r.Range(200, 2000)) * ms)})
+	if r.Chance(3, 4) {
+		// the old connection's clean-up is slow
+		cls := r.Pick([]string{"lock", "lock", "unlock", "log:*", "sock:listener-conn:Close", "cb:OnAllocationDeleted"})
+		p.Stalls = append(p.Stalls, Stall{M: Match{Class: cls, Args: "*", Nth: r.Range(1, 4)}, ParkNS: r.PickI64([]int64{100 * ms, sec, 5 * sec}), AfterOp: x})
+	}
+	add(Op{Actor: c, Kind: "allocate", At: gap(int64(r.Range(1, 400)) * ms), A: OpArgs{Lifetime: -1}})
+	add(Op{Actor: c, Kind: "createperm", At: gap(int64(r.Range(100, 900)) * ms), A: OpArgs{Peer: p.Peers[0].Addr}})
+	add(Op{Actor: "", Kind: "wait", At: gap(6 * sec)})
+	add(Op{Actor: c, Kind: "refresh", At: gap(500 * ms), A: OpArgs{Lifetime: 600}})
+	add(Op{Actor: p.Peers[0].ID, Kind: "peer_send", At: gap(300 * ms), A: OpArgs{Target: c, Len: 40}})
+	add(Op{Actor: c2, Kind: "binding", At: gap(300 * ms)})
+	p.QuietNS = 10 * sec
 }
